@@ -131,7 +131,12 @@ func (r *Receiver) SegmentHandlerFunc(w http.ResponseWriter, req *http.Request) 
 
 	defaultDur := mpd.Ptr(uint32(0))
 
-	chunkParserCallback := func(cd chunkparser.ChunkData) error {
+	chunkParserCallback := func(cd chunkparser.ChunkData) (cbErr error) {
+		defer func() { // the data is an upload: a decoder panic on damaged boxes is an error of the upload
+			if r := recover(); r != nil {
+				cbErr = fmt.Errorf("malformed segment data: %v", r)
+			}
+		}()
 		// Set ofh to the write file output and then write data
 		data := cd.Data // Used so that you can overwrite cd.Data when needed
 		if cd.IsInitSegment {
@@ -420,7 +425,12 @@ func findAndProcessOrigInitSegment(log *slog.Logger, ch *channel, stream stream)
 	return nil
 }
 
-func processInitSegment(log *slog.Logger, ch *channel, s stream, data []byte, isOrg bool) ([]byte, error) {
+func processInitSegment(log *slog.Logger, ch *channel, s stream, data []byte, isOrg bool) (out []byte, err error) {
+	defer func() { // the data is an upload: a decoder panic on damaged boxes is an error of the upload
+		if r := recover(); r != nil {
+			out, err = nil, fmt.Errorf("malformed init segment: %v", r)
+		}
+	}()
 	sr := bits.NewFixedSliceReader(data)
 	// Write original init segment to init_org.ext
 	if !isOrg {
